@@ -11,6 +11,15 @@
 #include <iostream>
 #include <stdexcept>
 #include "sol_rec.h"
+#include "mp/nl-solver.h"
+#include "mp/nl-model.h"
+
+#ifdef VERIF_COVERAGE
+extern "C" void __gcov_dump(void);
+#define COV_DUMP() __gcov_dump()
+#else
+#define COV_DUMP() ((void)0)
+#endif
 
 using namespace verif;
 
@@ -42,6 +51,36 @@ static std::string classify(const std::string& err, int status) {
   return "exit-" + std::to_string(WEXITSTATUS(status));
 }
 
+// the library's own handler: mp::NLSolver::ReadSolution() with SOLHandler_Easy (nl-writer2/src/nl-solver.cc) on a model
+// with nv continuous variables and nc (empty) linear rows
+static std::string readEasy(const std::string& work, const std::string& bytes, int nv, int nc) {
+  std::vector<double> lb(nv, 0.0), ub(nv, 1.0), rlb(nc, 0.0), rub(nc, 1.0), c(nv, 1.0);
+  std::vector<size_t> start(nc + 1, 0);
+  std::vector<int> idx;
+  std::vector<double> val;
+  mp::NLModel m("easy");
+  m.SetCols({nv, lb.data(), ub.data(), nullptr});
+  m.SetRows(nc, rlb.data(), rub.data(), {nc, NLW2_MatrixFormatRowwise, 0, start.data(), idx.data(), val.data()});
+  m.SetLinearObjective(NLW2_ObjSenseMinimize, 0.0, c.data());
+  QuietUtils u;
+  mp::NLSolver nls(&u);
+  std::string stub = work + "/easy";
+  nls.SetFileStub(stub);
+  if (!nls.LoadModel(static_cast<const mp::NLModel&>(m))) return "code=LoadFailed msg=0 | ";
+  {
+    FILE* f = fopen((stub + ".sol").c_str(), "wb");
+    if (!bytes.empty()) fwrite(bytes.data(), 1, bytes.size(), f);
+    fclose(f);
+  }
+  mp::NLSolution sol = nls.ReadSolution();
+  std::string emsg = nls.GetErrorMessage();
+  std::string r = std::string("code=") + codeName(nls.GetSolReadResultCode()) + " msg=" + (emsg.empty() ? "0" : "1") + " | easy ok=" + (emsg.empty() ? "1" : "0") + " x=" +
+                  std::to_string(sol.x_.size()) + " y=" + std::to_string(sol.y_.size()) + " sr=" + std::to_string(sol.solve_result_) +
+                  " nbs=" + std::to_string(sol.nbs_) + " nsuf=" + std::to_string(sol.suffixes_.size()) + " m=" +
+                  hexs(sol.solve_message_.data(), sol.solve_message_.size());
+  return r + " || emsg=" + hexs(emsg.data(), std::min<size_t>(emsg.size(), 8192));
+}
+
 int main(int argc, char** argv) {
   if (argc < 3) return 2;
   std::ifstream in(argv[1]);
@@ -55,6 +94,10 @@ int main(int argc, char** argv) {
     if (!(ss >> tag >> id >> fx >> nv >> nc >> rv >> da >> pa >> sa >> hexb) || tag != "case") { put("bad-op\n"); continue; }
     RecHandler h;
     std::string bytes;
+    bool easy = da == "easy";
+    bool missing = hexb == "missing";
+    if (easy) da = pa = sa = "while";
+    if (missing) hexb = "-";
     if (!parseAct(da, h.dual) || !parseAct(pa, h.primal) || !parseAct(sa, h.suf) || !unhex(hexb, bytes)) { put("bad-op\n"); continue; }
     h.hdr.num_vars = (int)nv;
     h.hdr.num_algebraic_cons = (int)nc;
@@ -64,6 +107,7 @@ int main(int argc, char** argv) {
       if (!f) { perror("work file"); return 2; }
       if (!bytes.empty()) fwrite(bytes.data(), 1, bytes.size(), f);
       fclose(f);
+      if (missing) std::remove(path.c_str());
     }
     int ep[2];
     if (pipe(ep)) return 2;
@@ -73,8 +117,9 @@ int main(int argc, char** argv) {
       close(ep[0]);
       dup2(ep[1], 2);
       alarm(20);
-      std::string r = readWith(path, h, true);
+      std::string r = easy ? readEasy(work, bytes, (int)nv, (int)nc) : readWith(path, h, true);
       put(id + " " + r + "\n");
+      COV_DUMP();
       _exit(0);
     }
     close(ep[1]);
